@@ -8,13 +8,13 @@ CLAIMED = {
     "C03": {
         "technique": "deterministic simulation: seeded schedule search over every map-range site (canonical vs reversed/shuffled/rotated/subset/pinned-language-order schedules) on corpus and generated pipelines; outputs and inspect IR compared; ddmin to the responsible range statement; replay",
         "text": "Every `range` over a map in cog runs under a scheduler the harness controls, so an order-dependent site that is reached with >=2 keys is exposed by the first canonical/reversed pair instead of with luck. Pipelines (1-3 inputs in the three formats, 1-7 languages, all output toggles) are sampled, not enumerated.",
-        "note": "Map sites inside the standard library, cue, yaml.v3, expr and (for now) kin-openapi/jsonschema/codejen keep the runtime's order; a residual-nondeterminism self-check (same schedule twice, observations compared) polices that. Error texts are not compared, only ok/fail.",
+        "note": "The map ranges of codejen, kin-openapi/openapi3 and santhosh-tekuri/jsonschema/v5 are behind the seam too (139 sites, rewritten in writable copies of the module directories); map sites inside the standard library, cue, yaml.v3 and expr keep the runtime's order; a residual-nondeterminism self-check (same schedule twice, observations compared) polices that. Error texts are not compared, only ok/fail.",
         "design_ref": "DESIGN.md §5 C03",
     },
     "C04": {
         "technique": "deterministic simulation with fault injection: seeded fault plans (torn/flipped/zeroed/duplicated bytes, stale/empty/missing files, directories for files, failing os calls, record-level corruption, HTTP status/body faults, cancellation, stream errors and short reads) drawn after a fault-free dry run and injected into simulated runs of every public entry point, under seeded map-order schedules, a tick clock (deterministic hang verdict) and a call-depth budget; fault/workload minimisation and replay; worker death re-executed in isolation",
         "text": "Seeded search over fault sequences and generated inputs/configurations; the oracle is only 'the call returns'. The statement quantifies over all byte sequences: this family reaches that set only through corruptions of well-formed documents and unusual-but-valid generated shapes, a weak decision procedure for deep structural cases (DESIGN.md §5 C04).",
-        "note": "Crashes are keyed by class + innermost cog function (package for runaway recursion and hangs); 33 crash sites that exist on the unchanged tree are listed in known_findings.json and 45 were repaired. A new crash in a function that already has a listed crash of the same class is masked. Hangs inside uninstrumented libraries are caught by a wall-clock/memory watchdog and confirmed in a fresh process.",
+        "note": "Crashes are keyed by class + innermost cog function (package for runaway recursion and hangs); 28 crash sites that exist on the unchanged tree are listed in known_findings.json and 50 were repaired. A new crash in a function that already has a listed crash of the same class is masked. Hangs inside uninstrumented libraries are caught by a wall-clock/memory watchdog and confirmed in a fresh process.",
         "design_ref": "DESIGN.md §5 C04",
     },
     "C05": {
